@@ -39,7 +39,7 @@ ASSUMPTIONS = [
 ]
 SETTINGS: Dict[str, Dict[str, Any]] = {
     "quick": {"cases": 96, "budget_s": 60, "minimums": {"asset_year_sheets": 300, "chain_links": 200, "chain_to_non_adjacent_year": 40, "nontrivial": 25, "reports_with_a_fee_row_equal_to_a_transfer_fee": 3, "size_sweep_cases": 20, "reports_with_a_transfer_fee_worth_less_than_5e-14": 2}},
-    "thorough": {"cases": 2500, "budget_s": 420, "minimums": {"asset_year_sheets": 4000, "chain_links": 2000, "chain_to_non_adjacent_year": 400, "nontrivial": 400, "reports_with_a_fee_row_equal_to_a_transfer_fee": 60, "size_sweep_cases": 100, "reports_with_a_transfer_fee_worth_less_than_5e-14": 100}},
+    "thorough": {"cases": 2500, "budget_s": 420, "minimums": {"asset_year_sheets": 2400, "chain_links": 1200, "chain_to_non_adjacent_year": 240, "nontrivial": 240, "reports_with_a_fee_row_equal_to_a_transfer_fee": 36, "size_sweep_cases": 60, "reports_with_a_transfer_fee_worth_less_than_5e-14": 60}},
 }
 
 
